@@ -138,8 +138,11 @@ def errName : Err → String
   | .empty => "empty" | .parse => "parse" | .unsupported => "unsupported"
   | .indexWithoutTable => "index-without-table" | .pkExpr => "pk-expr"
   | .notNullNeedsDefault => "not-null-needs-default" | .foreignKey => "foreign-key"
-  | .uniqueIndex => "unique-index" | .dropTable => "drop-table" | .removeColumn => "remove-column"
-  | .changeColumn => "change-column" | .addPk => "add-pk" | .modifyPk => "modify-pk"
+  | .uniqueIndex => "unique-index" | .dropTable => "drop-table"
+  -- the four "edit of an existing table" kinds print as ONE token: `apply_schema` walks the existing tables in
+  -- HashSet order, so WHICH of them is reported first is not determined when a submission has two wrong tables
+  -- (accept / reject and the resulting state do not depend on the order and are compared exactly)
+  | .removeColumn => "table-edit" | .changeColumn => "table-edit" | .addPk => "table-edit" | .modifyPk => "table-edit"
   | .importedPkMismatch => "imported-pk-mismatch" | .importedColsMismatch => "imported-cols-mismatch"
   | .sqlite => "sqlite"
 
